@@ -30,6 +30,14 @@ impl<'a> PreReleaseProcessor<'a> {
     }
 
     fn is_var_set(&self, var: &Var) -> bool {
+        // a secondary variable that already has its schema slot (even without a value) must not get a second one
+        if self
+            .schema
+            .extra_core()
+            .contains(&Component::Var(var.clone()))
+        {
+            return true;
+        }
         match var {
             Var::PreRelease => self.vars.pre_release.is_some(),
             Var::Epoch => self.vars.epoch.is_some(),
